@@ -27,11 +27,18 @@ type config struct {
 	RAbort  bool   `json:"receiver_aborts"`
 	Len     bool   `json:"length_reads"`  // MailboxesLength resource read inside receiver sections
 	Late    bool   `json:"late_receiver"` // the receiver starts listening by a scripted move (dial failures before)
-	Stall   bool   `json:"stall_move"`    // one move "nobody reads for 2.5 write timeouts" while the receive channel is full (costs a deviation)
-	Blocked bool   `json:"blocked_reads"` // reading an empty mailbox = a read left in flight while senders go on (else: a read that times out)
-	Budget  int    `json:"deviation_budget"`
-	ToMs    int    `json:"read_timeout_ms"`  // read timeout of the mailboxes (real time; a spurious one only aborts a section)
-	WToMs   int    `json:"write_timeout_ms"` // write / acknowledgement timeout (real time)
+	// Relay: the senders reach the receiver through a harness byte relay; move "commit with the acknowledgement held
+	// past the sender's timeout" (once per execution, costs a deviation)
+	Relay bool `json:"ack_relay"`
+	// Bulk > 0: one macro move "the sender commits one-message sections (PadKB KiB each) while nobody reads, until a
+	// WriteValue times out on the full connection (at most Bulk sections), then retries that section"
+	Bulk    int  `json:"bulk_sections"`
+	PadKB   int  `json:"message_padding_kib"`
+	Stall   bool `json:"stall_move"`    // one move "nobody reads for 2.5 write timeouts" while the receive channel is full (costs a deviation)
+	Blocked bool `json:"blocked_reads"` // reading an empty mailbox = a read left in flight while senders go on (else: a read that times out)
+	Budget  int  `json:"deviation_budget"`
+	ToMs    int  `json:"read_timeout_ms"`  // read timeout of the mailboxes (real time; a spurious one only aborts a section)
+	WToMs   int  `json:"write_timeout_ms"` // write / acknowledgement timeout (real time)
 }
 
 type discard struct{ why string }
@@ -41,6 +48,9 @@ var (
 	spuriousAborts  atomic.Int64
 	expectedAborts  atomic.Int64
 	sockOps         atomic.Int64
+	acksDelayed     atomic.Int64
+	acksResent      atomic.Int64
+	bulkMoves       atomic.Int64
 	overlappedReads atomic.Int64
 	commitsInFlight atomic.Int64
 	stallMoves      atomic.Int64
@@ -112,6 +122,16 @@ type sockSys struct {
 	up           bool
 	stalled      bool
 	everInFlight bool
+	inBulk       bool
+	relay        *relay
+	ackDelayed   bool
+	bulkDone     bool
+	pad          tla.Value
+	lateAck      map[int]string // message -> harness log of the commit whose acknowledgement was held, after which the sender redialed
+	// write timeouts established from the harness's own log: sender -> serial of the first message written after a
+	// WriteValue timed out while the receiver was listening and the sender had closed its connection
+	redialSerial map[int]int
+	redialLog    map[int]string
 	Bmax         int // units whose Commit has been invoked (may legitimately be visible)
 	B, P         int // units (tcp: batches, relaxed: messages) acknowledged to senders / pulled out of msgChannel by the receiver
 	sp           []sphase
@@ -202,14 +222,31 @@ func newSockSys(c *explore.Ctx, cfg *config, wk *worker) *sockSys {
 		s.addr = wk.ip + ":0"
 		s.listen()
 	}
+	s.lateAck, s.redialSerial, s.redialLog = map[int]string{}, map[int]int{}, map[int]string{}
+	if cfg.PadKB > 0 {
+		s.pad = tla.MakeString(strings.Repeat("x", cfg.PadKB*1024))
+	}
+	target := func() string { return s.addr }
+	if cfg.Relay {
+		r, err := newRelay(wk.ip+":0", s.addr)
+		if err != nil {
+			s.discard("relay cannot listen: " + err.Error())
+		}
+		s.relay = r
+		target = func() string { return r.addr }
+	}
 	for i := 0; i < cfg.Senders; i++ {
 		s.sIface = append(s.sIface, distsys.NewMPCalContextWithoutArchetype().IFace())
-		s.send = append(s.send, s.mk(func(tla.Value) (resources.MailboxKind, string) { return resources.MailboxesRemote, s.addr }))
+		s.send = append(s.send, s.mk(func(tla.Value) (resources.MailboxKind, string) { return resources.MailboxesRemote, target() }))
 	}
 	return s
 }
 
 func (s *sockSys) cleanup() {
+	if s.relay != nil {
+		r := s.relay
+		time.AfterFunc(20*time.Millisecond, r.close)
+	}
 	for _, mb := range s.send {
 		mb := mb
 		go func() { defer func() { recover() }(); _ = mb.Close() }()
@@ -272,7 +309,11 @@ func (s *sockSys) sWrite(i int) {
 			err = e
 			return
 		}
-		err = leaf.WriteValue(s.sIface[i], tla.MakeNumber(int32(v)))
+		val := tla.MakeNumber(int32(v))
+		if s.cfg.PadKB > 0 {
+			val = tla.MakeTuple(val, s.pad)
+		}
+		err = leaf.WriteValue(s.sIface[i], val)
 	})
 	ph := &s.sp[i]
 	if !ph.inSec {
@@ -283,7 +324,16 @@ func (s *sockSys) sWrite(i int) {
 			s.fail(&viol{s.cfg.Kind + "/write-error", fmt.Sprintf("WriteValue returned %v", err)})
 		}
 		s.trace[len(s.trace)-1] += "=abort"
-		if s.up {
+		if s.up && s.inBulk {
+			expectedAborts.Add(1)
+			// harness log for the cause "write timeout -> sender closed its connection -> redial"
+			if leaf, e := s.send[i].Index(s.sIface[i], s.rid); e == nil {
+				if open, _, _, ok := resources.VerifMboxRemote(leaf); ok && !open {
+					s.redialSerial[i] = s.m.serial[i] + 1
+					s.redialLog[i] = fmt.Sprintf("WriteValue(%d) timed out after %d ms with the receiver listening and not reading; the sender closed its connection (accessor: conn=nil); message %d and later go through a new connection", v, s.cfg.WToMs, senderMsg(i, s.m.serial[i]+1))
+				}
+			}
+		} else if s.up {
 			noteSpurious("write")
 		} else {
 			expectedAborts.Add(1)
@@ -359,6 +409,197 @@ func (s *sockSys) sCommit(i int) {
 		s.everInFlight = true
 		s.sp[i].commit, s.sp[i].commitUnits = done, units
 	}
+}
+
+// sCommitAckHeld: the sender commits while the relay keeps back whatever the receiver answers on the connection that is
+// open now - i.e. exactly the commit acknowledgement - until the sender has given up on it (its read of the ack times out
+// after WToMs, it closes the connection, redials through the relay and replays begin/values/commit) or, if it never
+// redials, for three write timeouts.  Then the late acknowledgement is let go.  Nothing is dropped, no connection fails.
+func (s *sockSys) sCommitAckHeld(i int) {
+	s.ackDelayed = true
+	s.everInFlight = true // any surplus at the receiver is left to the reads, which say what it is
+	acksDelayed.Add(1)
+	msgs := append([]int{}, s.m.cur[i]...)
+	s.trace = append(s.trace, fmt.Sprintf("s%d.commit(ack-held)", i))
+	s.m.senderCommits(i)
+	s.Bmax++
+	hs := s.relay.holdExisting()
+	acc0, eof0 := s.relay.counts()
+	done := make(chan any, 1)
+	sockOps.Add(1)
+	go func() {
+		defer func() { done <- recover() }()
+		if ch := s.send[i].Commit(s.sIface[i]); ch != nil {
+			<-ch
+		}
+	}()
+	wto := time.Duration(s.cfg.WToMs) * time.Millisecond
+	t0 := time.Now()
+	var p any
+	returned := false
+	for time.Since(t0) < 3*wto && !returned {
+		if acc, _ := s.relay.counts(); acc > acc0 {
+			break
+		}
+		select {
+		case p = <-done:
+			returned = true
+		case <-time.After(time.Millisecond):
+		}
+	}
+	heldFor := time.Since(t0).Round(time.Millisecond)
+	acc, eof := s.relay.counts()
+	if acc > acc0 {
+		// the sender has redialed: it closed the old connection before (the relay notices the EOF concurrently), and the
+		// acknowledgement it did not wait for is sitting in the relay; give the relay's bookkeeping a moment to show both
+		for w := 0; w < 2000 && (eof <= eof0 || heldAnswers(hs, s.relay) == 0); w++ {
+			time.Sleep(time.Millisecond)
+			acc, eof = s.relay.counts()
+		}
+	}
+	held := heldAnswers(hs, s.relay)
+	s.relay.release()
+	if !returned {
+		select {
+		case p = <-done:
+		case <-time.After(envCap):
+			s.discard("Commit did not return after the held acknowledgement was released")
+		}
+	}
+	if acc > acc0 && eof > eof0 && held > 0 {
+		// cause established from the relay's log: the acknowledgement was sent (held by the relay), the sender closed
+		// its connection and opened a new one during this Commit
+		lg := fmt.Sprintf("commit of %v: the receiver's acknowledgement was sent (%d answer chunk(s) held by the relay for %v), the sender's read of it timed out (timeout %d ms), the sender closed the connection, redialed (%d new connection(s)), replayed the section, and Commit returned", msgs, held, heldFor, s.cfg.WToMs, acc-acc0)
+		for _, m := range msgs {
+			s.lateAck[m] = lg
+		}
+		acksResent.Add(1)
+		s.trace[len(s.trace)-1] += "(sender-timed-out-and-redialed)"
+	}
+	s.commitDone(i, 1, p)
+}
+
+// sBulk: one-message sections, each committed, while nobody reads, until a WriteValue times out; then the retry.
+// The bulk sections do not count against the scripted number of sections.
+func (s *sockSys) sBulk(i int) {
+	s.bulkDone = true
+	s.inBulk = true
+	bulkMoves.Add(1)
+	secs0 := s.sp[i].secs
+	mark := len(s.trace)
+	n := 0
+	for ; n < s.cfg.Bulk; n++ {
+		if _, timedOut := s.redialSerial[i]; timedOut {
+			break
+		}
+		s.sWrite(i)
+		if s.sp[i].inSec {
+			s.sCommit(i)
+		}
+	}
+	s.inBulk = false
+	_, timedOut := s.redialSerial[i]
+	if timedOut {
+		s.sWrite(i) // the retry of the aborted section, through a new connection
+		if s.sp[i].inSec {
+			s.sCommit(i)
+		}
+	}
+	// keep the trace short: first sections ... last operations
+	if len(s.trace) > mark+12 {
+		s.trace = append(append(append([]string{}, s.trace[:mark+4]...), fmt.Sprintf("...(%d one-message sections committed while nobody reads)...", n)), s.trace[len(s.trace)-6:]...)
+	}
+	if !timedOut {
+		s.trace = append(s.trace, "(no write timeout)")
+	}
+	s.sp[i].secs = secs0
+}
+
+func senderMsg(i, serial int) int { return (i+1)*10000 + serial }
+
+// msgOf decodes a message (a number, or <<number, padding>>).
+func msgOf(v tla.Value) int {
+	if v.IsTuple() {
+		return int(v.AsTuple().Get(0).AsNumber())
+	}
+	return int(v.AsNumber())
+}
+
+// attribute gives a violation one of the cause-specific keys, only when the cause is established from the harness's own log.
+func (s *sockSys) attribute(f *viol, v int) *viol {
+	switch {
+	case f.key == "tcp/duplicated" && s.lateAck[v] != "":
+		return &viol{"tcp/duplicated-after-late-commit-ack", f.what + " | cause: " + s.lateAck[v]}
+	case f.key == "relaxed/lost-or-reordered":
+		i := senderOf(v)
+		rs, ok := s.redialSerial[i]
+		if !ok {
+			return f
+		}
+		if g := s.classifyReorder(i, v, rs); g != nil {
+			return g
+		}
+	}
+	return f
+}
+
+// classifyReorder: message v arrived where an earlier message of sender i was due, after a write timeout of that sender.
+// Everything else is read; the specific key applies only if nothing is lost or duplicated and every message that arrived
+// early was written after the timeout (through the new connection) while everything it overtook was written before.
+func (s *sockSys) classifyReorder(i, v, redial int) *viol {
+	want := s.m.committed[i]
+	got := []int{}
+	for _, x := range s.m.first {
+		if senderOf(x) == i {
+			got = append(got, x)
+		}
+	}
+	got = append(got, v)
+	aborts := 0
+	for len(got) < len(want)+2 && aborts < 60 {
+		r := s.waitRead(s.startRead())
+		if r.err != nil || r.pan != nil {
+			aborts++
+			continue
+		}
+		aborts = 0
+		got = append(got, msgOf(r.v))
+	}
+	if len(got) != len(want) {
+		return nil
+	}
+	seen := map[int]bool{}
+	for _, x := range got {
+		if seen[x] {
+			return nil
+		}
+		seen[x] = true
+	}
+	for _, x := range want {
+		if !seen[x] {
+			return nil
+		}
+	}
+	// every inversion must be "written after the redial" before "written before the redial"
+	for a := 0; a < len(got); a++ {
+		for b := a + 1; b < len(got); b++ {
+			if got[a] > got[b] && !(serialOf(got[a]) >= redial && serialOf(got[b]) < redial) {
+				return nil
+			}
+		}
+	}
+	pos := 0
+	for k, x := range got {
+		if x == v {
+			pos = k
+		}
+	}
+	head := got
+	if len(head) > pos+4 {
+		head = head[:pos+4]
+	}
+	return &viol{"relaxed/reordered-after-write-timeout", fmt.Sprintf("all %d messages of the sender's committed sections arrive exactly once, but %d (written after the write timeout, through the new connection) arrives at position %d, before %d messages written earlier: obtained %v ... | cause: %s",
+		len(want), v, pos+1, len(want)-1-pos, head, s.redialLog[i])}
 }
 
 func (s *sockSys) commitDone(i, units int, p any) {
@@ -464,13 +705,13 @@ func (s *sockSys) finishRead(r readRes, wasBacklogEmpty, visible bool) {
 		s.rAbort()
 		return
 	}
-	v := int(r.v.AsNumber())
+	v := msgOf(r.v)
 	s.trace[len(s.trace)-1] += fmt.Sprintf("=%d", v)
 	if wasBacklogEmpty {
 		s.P++
 	}
 	if f := s.m.got(v, s.cfg.Kind); f != nil {
-		s.fail(f)
+		s.fail(s.attribute(f, v))
 	}
 	s.rp.ops++
 	s.settle()
@@ -647,6 +888,9 @@ func (s *sockSys) run() {
 					moves = append(moves, move{i, "W", c})
 					sendersCanMove = true
 				}
+				if cfg.Bulk > 0 && !s.bulkDone && s.up && s.rp.pending == nil {
+					moves = append(moves, move{i, "bulk", c})
+				}
 			case !ph.pre:
 				sendersCanMove = true
 				if ph.writes < cfg.MaxW {
@@ -663,6 +907,9 @@ func (s *sockSys) run() {
 			default:
 				sendersCanMove = true
 				moves = append(moves, move{i, "C", c})
+				if cfg.Relay && !s.ackDelayed && cfg.Kind == "tcp" && len(s.m.cur[i]) > 0 {
+					moves = append(moves, move{i, "Cdelay", 1})
+				}
 				if canAbort(i) {
 					moves = append(moves, move{i, "A", c})
 				}
@@ -723,6 +970,10 @@ func (s *sockSys) run() {
 				s.sPreCommit(mv.who)
 			case "C":
 				s.sCommit(mv.who)
+			case "Cdelay":
+				s.sCommitAckHeld(mv.who)
+			case "bulk":
+				s.sBulk(mv.who)
 			case "A":
 				s.sAbort(mv.who)
 			}
@@ -812,10 +1063,10 @@ func (s *sockSys) drain() {
 		s.trace = append(s.trace, "r.read")
 		r := s.waitRead(s.startRead())
 		if r.err == nil && r.pan == nil {
-			v := int(r.v.AsNumber())
+			v := msgOf(r.v)
 			s.trace[len(s.trace)-1] += fmt.Sprintf("=%d", v)
 			if f := s.m.got(v, s.cfg.Kind); f != nil {
-				s.fail(f)
+				s.fail(s.attribute(f, v))
 			}
 		}
 	}
